@@ -289,6 +289,26 @@ _TIME_MODULES = ('slimta.queue', 'slimta.edge', 'slimta.bounce', 'slimta.relay.s
                  'slimta.util.ptrlookup', 'slimta.redisstorage')
 
 
+def reset_mutable_defaults(*classes):
+    """A mutable default argument is state shared by every object built without that argument, and by every execution
+    of a worker process.  Emptied before an execution so that executions stay independent (the sharing itself is then
+    observed within one execution: by building two objects and using both).  -> names of the defaults that held something."""
+    dirty = []
+    for cls in classes:
+        for name in ('__init__', 'apply', 'attempt'):
+            fn = getattr(cls, name, None)
+            fn = getattr(fn, '__func__', fn)
+            for d in (getattr(fn, '__defaults__', None) or ()):
+                if isinstance(d, (list, dict, set)) and len(d):
+                    dirty.append('%s.%s' % (cls.__name__, name))
+                    d.clear()
+            for d in (getattr(fn, '__kwdefaults__', None) or {}).values():
+                if isinstance(d, (list, dict, set)) and len(d):
+                    dirty.append('%s.%s' % (cls.__name__, name))
+                    d.clear()
+    return dirty
+
+
 def snapshot_reply_constants():
     """module-level Reply objects of the library (pre-defined responses shared by every session of the process)"""
     mod = sys.modules.get('slimta.smtp.reply')
